@@ -39,6 +39,16 @@ def _crystals():
                                         [[np.array([0, .5, .5]), np.array([.5, 0, .5]), np.array([.5, .5, 0])],
                                          [np.array([.5, 0, 0]), np.array([0, .5, 0]), np.array([0, 0, .5])]],
                                         ["Nb", "O"]), 0.80),
+        # low symmetry: point group 2 only (invariant tensors between vector stars need not be symmetric),
+        # one and two sites per cell (the latter with origin states), and a monoclinic 3-D cell
+        "oblique": (lambda: crystal.Crystal(A * np.array([[1., 0.3], [0., 1.1]]), [np.zeros(2)]), 1.2),
+        "oblique2": (lambda: crystal.Crystal(A * np.array([[1., 0.3], [0., 1.1]]),
+                                             [np.zeros(2), np.array([0.3, 0.45])]), 0.9),
+        "mono": (lambda: crystal.Crystal(A * np.array([[1., 0., 0.25], [0., 1.1, 0.], [0., 0., 0.9]]),
+                                         [np.zeros(3)]), 1.15),
+        # symmetry switched off by the user (NOSYM=True): the group is the identity alone, three distinct
+        # jump types along x, y, z; anything that re-derives the group after a reload changes the physics
+        "scnosym": (lambda: crystal.Crystal(A * np.eye(3), [np.zeros(3)], NOSYM=True), 1.01),
         "rect4i": (lambda: crystal.Crystal(A * np.array([[1., 0.], [0., 1.6]]),
                                            [np.array([0., .2]), np.array([.5, .35]), np.array([0., .8]),
                                             np.array([.5, .65])]), 0.85),
@@ -47,7 +57,8 @@ def _crystals():
 
 CRYSTALS = _crystals()
 CHEAP = ("sc", "fcc", "bcc", "diamond", "square", "tria", "honey", "triadisp", "rect2w")
-QUICK_WORLDS = ("sc", "fcc", "bcc", "hcp", "diamond", "square", "tria", "honey", "b2disp", "triadisp", "rect2w", "rect4i", "nbo")
+QUICK_WORLDS = ("sc", "fcc", "bcc", "hcp", "diamond", "square", "tria", "honey", "b2disp", "triadisp", "rect2w", "rect4i", "nbo",
+                "oblique", "oblique2", "mono", "scnosym")
 ALL_WORLDS = QUICK_WORLDS + ("tet2w",)
 if os.environ.get("CALCSIM_WORLDS"):      # A/B experiments only (e.g. "was this caught before world X existed?")
     QUICK_WORLDS = ALL_WORLDS = tuple(os.environ["CALCSIM_WORLDS"].split(","))
@@ -228,6 +239,14 @@ class Pool(object):
         tr["vals"] = {k: v for k, v in b1["vals"].items() if k[0] in ("vacancy", "omega0")}
         tr["tracer"] = True
         self.inputs.append(tr)
+        # cold: every barrier raised by 24 kT, so that all rates (and the transport coefficients) are ~1e-11 in
+        # absolute terms; anything with an absolute threshold (a "clean-up" of small numbers) shows here
+        cd = clone(b1, "cold")
+        for k in list(cd["vals"]):
+            if k[0] in ("omega0", "omega1", "omega2"):
+                p_, e_ = cd["vals"][k]
+                cd["vals"][k] = (p_, e_ + 24.0 * cd["kT"])
+        self.inputs.append(cd)
         if nwyckoff > 1:
             # differs only in one vacancy-site energy (catches keys that ignore a field)
             w = clone(b0, "one-site-energy")
